@@ -5446,18 +5446,21 @@ class RemoteBranch(branch.Branch, _RpcHelper, lock._RelockDebugMixin):
         return self._real_branch._set_tags_bytes(bytes)
 
     def _set_tags_bytes(self, bytes):
-        if self.is_locked():
-            self._tags_bytes = bytes
+        # Until the write has succeeded nothing is known about what the
+        # server stores: a failed write must not leave the new value cached.
+        self._tags_bytes = None
         medium = self._client._medium
         if medium._is_remote_before((1, 18)):
             self._vfs_set_tags_bytes(bytes)
-            return
-        try:
-            args = (self._remote_path(), self._lock_token, self._repo_lock_token)
-            self._call_with_body_bytes(b"Branch.set_tags_bytes", args, bytes)
-        except transport_errors.UnknownSmartMethod:
-            medium._remember_remote_is_before((1, 18))
-            self._vfs_set_tags_bytes(bytes)
+        else:
+            try:
+                args = (self._remote_path(), self._lock_token, self._repo_lock_token)
+                self._call_with_body_bytes(b"Branch.set_tags_bytes", args, bytes)
+            except transport_errors.UnknownSmartMethod:
+                medium._remember_remote_is_before((1, 18))
+                self._vfs_set_tags_bytes(bytes)
+        if self.is_locked():
+            self._tags_bytes = bytes
 
     def lock_read(self):
         """Lock the branch for read operations.
